@@ -794,6 +794,130 @@ example : ((hstep (fun _ => []) (hstate (fun _ => []) "f1" demoH) (.hfree 1)).1.
     (hstep (fun _ => []) (hstep (fun _ => []) (hstate (fun _ => []) "f1" demoH) (.hfree 1)).1 (.hbcast 2 "r" "m")).2
       = .pushes [⟨"f1", [5, 6], "r", "m"⟩] [] := by decide
 
+/-! ### direct pushes and unserialisable messages -/
+
+/-- **A direct push** (`channel.Service.PushMessageByIds / PushMessageById`, no channel involved), issued in
+any state `s` of the issuing service, towards any front name, with any id list, under any directory:
+the push layer is handed exactly the one tuple `(f, ids)`; the listed open live connections of the issuing
+service receive it in place (once per occurrence, in list order: `pushMsg`, to which `front_fanout` and
+`closed_connection_does_not_affect_others` apply) iff `f` is the issuing service and it has a "sessions"
+component, and nothing is delivered in place otherwise; exactly one `sys.pushmsg` carrying the caller's list
+is sent onward iff the push was not delivered in place and the directory knows `f`, none otherwise (an
+unknown front is dropped); a front-end `b` handling what was sent delivers to its listed live connections iff
+it is the addressed one; in place and onward exclude each other; and the single-id form is the one-element
+list. -/
+theorem direct_push_reaches_exactly_the_listed_connections (ser : String → List Nat) (s : St) (dir : List String)
+    (f : String) (ids : List Nat) (x : Nat) (route msg : String) :
+    directObs ser s (directPush f ids route msg) =
+      .pushes [⟨f, ids, route, msg⟩]
+        (if f = s.localFront ∧ s.noSessions = false then pushMsg s.front.reachable ids route (ser msg) else []) ∧
+    forwardedFrom s dir (directPush f ids route msg) =
+      (if (f ≠ s.localFront ∨ s.noSessions = true) ∧ f ∈ dir then [⟨f, ids, route, msg⟩] else []) ∧
+    (∀ b blive, remoteDeliveries ser b blive (forwardedFrom s dir (directPush f ids route msg)) =
+      if ((f ≠ s.localFront ∨ s.noSessions = true) ∧ f ∈ dir) ∧ f = b then pushMsg blive ids route (ser msg) else []) ∧
+    ((f = s.localFront ∧ s.noSessions = false) → forwardedFrom s dir (directPush f ids route msg) = []) ∧
+    directPush1 f x route msg = directPush f [x] route msg := by
+  have hfw : forwardedFrom s dir (directPush f ids route msg) =
+      (if (f ≠ s.localFront ∨ s.noSessions = true) ∧ f ∈ dir then [⟨f, ids, route, msg⟩] else []) := by
+    simp only [forwardedFrom, directPush, List.filter_cons, List.filter_nil]
+    by_cases h1 : f = s.localFront <;> by_cases h2 : s.noSessions = true <;> by_cases h3 : f ∈ dir <;>
+      simp [h1, h2, h3]
+  refine ⟨?_, hfw, ?_, ?_, rfl⟩
+  · simp only [directObs, directPush, localDeliveries]
+    cases hn : s.noSessions <;> by_cases h1 : f = s.localFront <;> simp [h1]
+  · intro b blive
+    rw [hfw]
+    by_cases hc : (f ≠ s.localFront ∨ s.noSessions = true) ∧ f ∈ dir
+    · rw [if_pos hc]
+      by_cases hb : f = b
+      · rw [if_pos ⟨hc, hb⟩]; simp [remoteDeliveries, hb]
+      · rw [if_neg (fun h => hb h.2)]; simp [remoteDeliveries, hb]
+    · rw [if_neg hc, if_neg (fun h => hc h.1)]; simp [remoteDeliveries]
+  · intro h
+    rw [hfw]
+    have : ¬ ((f ≠ s.localFront ∨ s.noSessions = true) ∧ f ∈ dir) := by
+      rintro ⟨h1 | h1, _⟩
+      · exact h1 h.1
+      · rw [h.2] at h1; cases h1
+    simp [this]
+
+/-- **A direct push to the issuing front-end, connection by connection.**  In any state of an issuing
+service that has the component, a direct push under its own name reaches every registered open connection
+exactly as often as it is listed, no closed or unregistered one, in list order, each delivery carrying the
+route and the serialized message. -/
+theorem direct_push_in_place_counts (ser : String → List Nat) (s : St) (ids : List Nat) (route msg : String)
+    (ps : List Push) (dl : List Delivery) (hs : s.noSessions = false)
+    (h : directObs ser s (directPush s.localFront ids route msg) = .pushes ps dl) :
+    (∀ x ∈ s.front.live, x ∉ s.front.closed → (dl.map (·.id)).count x = ids.count x) ∧
+    (∀ x ∈ s.front.closed, (dl.map (·.id)).count x = 0) ∧
+    (∀ x, x ∉ s.front.live → (dl.map (·.id)).count x = 0) ∧
+    (dl.map (·.id)).Sublist ids ∧
+    (∀ d ∈ dl, d.route = route ∧ d.data = ser msg) := by
+  have h0 := (direct_push_reaches_exactly_the_listed_connections ser s [] s.localFront ids 0 route msg).1
+  rw [h0] at h
+  injection h with _ hdl
+  simp only [hs, and_self, if_true] at hdl
+  subst hdl
+  obtain ⟨c1, c2, c3, c4, _⟩ := closed_connection_does_not_affect_others s.front ids route (ser msg)
+  exact ⟨c1, c2, c3, c4, (front_fanout s.front.reachable ids route (ser msg)).2.2.2.1⟩
+
+/-- **Who receives a push does not depend on the serializer.**  `pushLocal` / `pushMessageByIds` drop the
+error of `Serializer.Marshal` (`pmsg.Data, _ = ...`): a message the serializer rejects goes out with empty
+data — a serializer with `ser msg = []`.  For any two serializers, any state, any tuples (of a broadcast or a
+direct push): the connections reached, their order, multiplicity and routes are the same, in place and at
+any front-end handling the onward requests; only the payload differs, and it is always the serializer's
+output for the message of the tuple that caused the delivery. -/
+theorem recipients_do_not_depend_on_the_serializer (ser ser' : String → List Nat) (s : St) (b : String)
+    (blive : List Nat) (ps : List Push) :
+    (localDeliveries ser s ps).map (fun d => (d.id, d.route)) = (localDeliveries ser' s ps).map (fun d => (d.id, d.route)) ∧
+    (remoteDeliveries ser b blive ps).map (fun d => (d.id, d.route)) =
+      (remoteDeliveries ser' b blive ps).map (fun d => (d.id, d.route)) ∧
+    (∀ d ∈ localDeliveries ser s ps, ∃ p ∈ ps, d.data = ser p.msg ∧ d.route = p.route ∧ d.id ∈ p.ids) := by
+  refine ⟨?_, ?_, ?_⟩
+  · unfold localDeliveries
+    cases s.noSessions
+    · simp only [Bool.false_eq_true, if_false]
+      induction ps with
+      | nil => rfl
+      | cons p ps ih =>
+        simp only [List.flatMap_cons, List.map_append, ih]
+        congr 1
+        by_cases hp : p.front = s.localFront <;> simp [hp, pushMsg]
+    · simp
+  · unfold remoteDeliveries
+    induction ps with
+    | nil => rfl
+    | cons p ps ih =>
+      simp only [List.flatMap_cons, List.map_append, ih]
+      congr 1
+      by_cases hp : p.front = b <;> simp [hp, pushMsg]
+  · intro d hd
+    unfold localDeliveries at hd
+    cases hn : s.noSessions
+    · simp only [hn, Bool.false_eq_true, if_false, List.mem_flatMap] at hd
+      obtain ⟨p, hp, hd⟩ := hd
+      by_cases hf : p.front = s.localFront
+      · simp only [hf, if_true, pushMsg, List.mem_map, List.mem_filter] at hd
+        obtain ⟨i, ⟨hi, _⟩, rfl⟩ := hd
+        exact ⟨p, hp, rfl, rfl, hi⟩
+      · simp [hf] at hd
+    · simp [hn] at hd
+
+/-- a direct push to the issuing front-end listing a live (2), an unknown (9) and the live one again: in place,
+nothing onward; to the other known front f2: one request; to an unknown name: nothing at all; and the same
+push with a message the serializer rejects reaches the same connections with empty data -/
+example : directObs (fun _ => [7]) (run (fun _ => []) (init "f1") demo) (directPush "f1" [2, 9, 2] "r" "m") =
+      .pushes [⟨"f1", [2, 9, 2], "r", "m"⟩] [⟨2, "r", [7]⟩, ⟨2, "r", [7]⟩] ∧
+    forwardedFrom (run (fun _ => []) (init "f1") demo) ["f1", "f2", "f3"] (directPush "f1" [2, 9, 2] "r" "m") = [] ∧
+    forwardedFrom (run (fun _ => []) (init "f1") demo) ["f1", "f2", "f3"] (directPush "f2" [2] "r" "m") = [⟨"f2", [2], "r", "m"⟩] ∧
+    forwardedFrom (run (fun _ => []) (init "f1") demo) ["f1", "f2", "f3"] (directPush "nowhere" [2] "r" "m") = [] ∧
+    directObs (fun _ => []) (run (fun _ => []) (init "f1") demo) (directPush "f1" [2, 9, 2] "r" "m") =
+      .pushes [⟨"f1", [2, 9, 2], "r", "m"⟩] [⟨2, "r", []⟩, ⟨2, "r", []⟩] := by decide
+
+/-- the hypotheses of `direct_push_in_place_counts` are met by the demo state (issuer f1 with the component) -/
+example : (run (fun _ => []) (init "f1") demo).noSessions = false ∧ (run (fun _ => []) (init "f1") demo).localFront = "f1" ∧
+    (run (fun _ => []) (init "f1") demo).front.live = [2, 3] := by decide
+
 /-! ### what a plausible wrong `Remove` would break (witnesses used as seeded mutations) -/
 
 /-- swap-with-last removal keeps the multiset but not the join order -/
